@@ -320,6 +320,27 @@ def evaluate_payload_template(input, context, template):
         def asl_intrinsic_Array(args):
             return args
 
+        def is_int(value):
+            # JSON true/false are not integers (Python's bool is an int subclass)
+            return isinstance(value, int) and not isinstance(value, bool)
+
+        def json_equal(a, b):
+            """
+            Equality of JSON values. Python's == treats True == 1 and
+            False == 0, JSON booleans and numbers are however distinct.
+            """
+            if isinstance(a, bool) or isinstance(b, bool):
+                return isinstance(a, bool) and isinstance(b, bool) and a == b
+            if isinstance(a, dict) and isinstance(b, dict):
+                return (a.keys() == b.keys() and
+                        all(json_equal(a[k], b[k]) for k in a))
+            if isinstance(a, list) and isinstance(b, list):
+                return (len(a) == len(b) and
+                        all(json_equal(x, y) for x, y in zip(a, b)))
+            if isinstance(a, (dict, list)) or isinstance(b, (dict, list)):
+                return False
+            return a == b
+
         def asl_intrinsic_ArrayPartition(args):
             if len(args) != 2:
                 raise IntrinsicFailure(
@@ -333,7 +354,7 @@ def evaluate_payload_template(input, context, template):
                 )
 
             n = args[1]
-            if not isinstance(n, int) or n <= 0:
+            if not is_int(n) or n <= 0:
                 raise IntrinsicFailure(
                     "States.ArrayPartition failed, arg[1] is not a non-zero, positive integer."
                 )
@@ -359,7 +380,7 @@ def evaluate_payload_template(input, context, template):
             if AWS supports JSON object/list, if so that's make this much
             more complex and computationally expensive
             """
-            return args[1] in input_array
+            return any(json_equal(args[1], item) for item in input_array)
 
         def asl_intrinsic_ArrayRange(args):
             if len(args) != 3:
@@ -403,7 +424,7 @@ def evaluate_payload_template(input, context, template):
                 )
 
             index = args[1]
-            if not isinstance(index, int) or index < 0:
+            if not is_int(index) or index < 0:
                 raise IntrinsicFailure(
                     "States.ArrayGetItem failed, arg[1] is not a positive integer."
                 )
@@ -518,7 +539,7 @@ def evaluate_payload_template(input, context, template):
                 raise IntrinsicFailure(
                     "States.JsonMerge failed, requires three arguments"
                 )
-            if args[2] != False:
+            if args[2] is not False:
                 raise IntrinsicFailure(
                     "States.JsonMerge failed, args[2] must be false as Step " +
                     "Functions currently only supports the shallow merging mode."
@@ -537,25 +558,30 @@ def evaluate_payload_template(input, context, template):
                 raise IntrinsicFailure(
                     "States.MathRandom failed, requires two or three arguments"
                 )
-            # The last argument controls the seed value and is optional.
-            if len(args) == 3:
-                # https://docs.python.org/3/library/random.html#random.seed
-                random.seed(args[2])
-            if not isinstance(args[0], int) or not isinstance(args[1], int):
+            if not is_int(args[0]) or not is_int(args[1]):
                 raise IntrinsicFailure(
                     "States.MathRandom failed, args[0] and args[1] must be integers."
                 )
+            try:
+                # The last argument controls the seed value and is optional.
+                if len(args) == 3:
+                    # https://docs.python.org/3/library/random.html#random.seed
+                    random.seed(args[2])
 
-            # States.MathRandom has inclusive start and exclusive end number
-            # https://docs.aws.amazon.com/step-functions/latest/dg/amazon-states-language-intrinsic-functions.html#asl-intrsc-func-math-operation
-            return random.randrange(args[0], args[1])
+                # States.MathRandom has inclusive start and exclusive end number
+                # https://docs.aws.amazon.com/step-functions/latest/dg/amazon-states-language-intrinsic-functions.html#asl-intrsc-func-math-operation
+                return random.randrange(args[0], args[1])
+            except Exception as e:
+                raise IntrinsicFailure(
+                    "States.MathRandom failed with {}.".format(e)
+                )
 
         def asl_intrinsic_MathAdd(args):
             if len(args) != 2:
                 raise IntrinsicFailure(
                     "States.MathAdd failed, requires two arguments."
                 )
-            if not isinstance(args[0], int) or not isinstance(args[1], int):
+            if not is_int(args[0]) or not is_int(args[1]):
                 raise IntrinsicFailure(
                     "States.MathAdd failed, both arguments must be integers."
                 )
